@@ -134,3 +134,84 @@ W["compute_jth_inversion_sequence"] = dict(
                 ghost_post=lambda res, n, m, j: {"Wf": [_math.factorial(n) // _math.factorial(n - t) for t in range(m)],
                                                  "P": _math.factorial(n) // _math.factorial(n - m), "j": j // (_math.factorial(n) // _math.factorial(n - m))}),
 )
+
+# ------------------------------------------------------------------ geometry links (C26, C01, C08, C16)
+import types as _types
+
+
+def _mbtr_call(f, within_block, proc, T, PP, IS_POST):
+    from sweetpea._internal.block import BlockGeometry
+    from sweetpea._internal.cross_block import AlignmentMode
+    stub = _types.SimpleNamespace(trials_per_sample=lambda: T, preamble_size=lambda: PP,
+                                  alignment=AlignmentMode.POST_PREAMBLE if IS_POST else AlignmentMode.EQUAL_PREAMBLE)
+    return f(stub, within_block, proc)
+
+
+def _mbtr_domain():
+    from sweetpea._internal.block import BlockGeometry
+    proc = lambda s, e: s * 1000 + e
+    for T in range(1, 9):
+        yield dict(within_block=None, proc=proc, T=T, PP=0, IS_POST=False)
+        for L in range(1, T + 1):
+            for p in range(0, L):
+                for IS_POST, PP in ((False, p), (True, p), (True, p + 1)):
+                    yield dict(within_block=BlockGeometry(L, p, {}), proc=proc, T=T, PP=PP, IS_POST=IS_POST)
+
+
+_S0 = "ite(IS_POST, PP - within_block.preamble_size, 0)"
+_STEP = "(within_block.num_trials - within_block.preamble_size)"
+W["map_block_trial_ranges"] = dict(
+    id="map_block_trial_ranges", target="sweetpea._internal.cross_block:MultiCrossBlockRepeat.map_block_trial_ranges", prop=["C26", "C01", "C08"],
+    params={"within_block": "opt[obj{num_trials:int,preamble_size:int}]", "proc": "fn(int,int)->int"},
+    self_fields={"self.trials_per_sample()": ("T", "int"), "self.preamble_size()": ("PP", "int"),
+                 "self.alignment == AlignmentMode.POST_PREAMBLE": ("IS_POST", "bool")},
+    requires=["T >= 1", "0 <= PP", "PP < T",
+              # geometry of a block that was combined: at least one non-preamble trial, fits in the sequence
+              "implies(not is_none(within_block), within_block.preamble_size >= 0 and within_block.num_trials > within_block.preamble_size and within_block.num_trials <= T)",
+              "implies(not is_none(within_block) and IS_POST, PP >= within_block.preamble_size)"],
+    loops={0: dict(
+        ghost_init=["s0 = start", "e0 = end"],
+        invariant=["step >= 1", "start == s0 + len(lists) * step", "end == e0 + len(lists) * step",
+                   "forall(j, 0, len(lists), lists[j] == proc(s0 + j * step, min(e0 + j * step, num_trials)))",
+                   "implies(len(lists) > 0, start - step < num_trials - preamble)"],
+        decreases="num_trials - preamble - start")},
+    ensures=[
+        # helper level (from the code): the windows that are enumerated
+        "implies(is_none(within_block), len(result) == 1 and result[0] == proc(0, T))",
+        f"implies(not is_none(within_block), forall(j, 0, len(result), result[j] == proc({_S0} + j * {_STEP}, min(within_block.num_trials + j * {_STEP}, T))))",
+        # all non-preamble trials are covered by some window
+        f"implies(not is_none(within_block), {_S0} + len(result) * {_STEP} >= T - within_block.preamble_size)",
+        f"implies(not is_none(within_block), len(result) >= 1)",
+        # property level (C26 / main.rst): every repetition window lies inside the trial sequence [0, T]
+        f"implies(not is_none(within_block), forall(j, 0, len(result), 0 <= {_S0} + j * {_STEP} and {_S0} + j * {_STEP} < T - within_block.preamble_size and min(within_block.num_trials + j * {_STEP}, T) <= T))",
+    ],
+    native=dict(call=_mbtr_call, domain=_mbtr_domain),
+)
+
+
+def _att_call(f, trial_number, IS_DERIVED, WIN):
+    from sweetpea import Factor, DerivedLevel, WithinTrial, Window
+    if not IS_DERIVED:
+        return f(Factor("a", ["x", "y"]), trial_number)
+    a = Factor("a", ["x", "y"])
+    d = Factor("d", [DerivedLevel("p", Window(lambda *v: True, [a], 1, WIN.stride, WIN.start)),
+                     DerivedLevel("q", Window(lambda *v: False, [a], 1, WIN.stride, WIN.start))])
+    return f(d, trial_number)
+
+
+W["applies_to_trial"] = dict(
+    id="applies_to_trial", target="sweetpea._internal.primitive:Factor.applies_to_trial", prop=["C14", "C15", "C16"],
+    params={"trial_number": "int"},
+    self_fields={"isinstance(self, DerivedFactor)": ("IS_DERIVED", "bool"),
+                 "self.first_level.window": ("WIN", "obj{start:int,stride:int}")},
+    requires=["implies(IS_DERIVED, WIN.stride >= 1 and WIN.start >= 0)"],
+    raises={"ValueError": "trial_number <= 0"},
+    ensures=["trial_number >= 1",
+             "implies(not IS_DERIVED, result == True)",
+             # derivations.rst: `start` counts trials from 0; the factor applies to trial start, start+stride, ...
+             "implies(IS_DERIVED and result, trial_number - 1 >= WIN.start and exists(m, 0, trial_number, trial_number - 1 == WIN.start + m * WIN.stride))",
+             "implies(IS_DERIVED and not result, not exists(m, 0, trial_number, trial_number - 1 == WIN.start + m * WIN.stride))"],
+    native=dict(call=_att_call,
+                domain=lambda: ({"trial_number": t, "IS_DERIVED": d, "WIN": _types.SimpleNamespace(start=s, stride=k)}
+                                for t in range(-1, 12) for d in (False, True) for s in range(0, 4) for k in range(1, 4))),
+)
